@@ -36,6 +36,12 @@ fn text(r: &mut Rng) -> String {
     if r.chance(1, 12) {
         return String::new();
     }
+    if r.chance(1, 150) {
+        // a very long value: one line of tens of thousands of characters (ASCII or three-byte characters)
+        let unit = if r.chance(1, 2) { "tag " } else { "\u{97f3}\u{697d} " };
+        let n = 8_000 + r.below(12_000);
+        return unit.repeat(n).trim().to_string();
+    }
     let n = 1 + r.below(4);
     let parts: Vec<&str> = (0..n).map(|_| *r.pick(TEXT_PARTS)).collect();
     let sep = [" ", "", ": ", " - ", ","][r.below(5)];
